@@ -23,6 +23,9 @@ pub struct S02 {
     pub pattern: Pattern,
     pub image: Vec<u8>,
     pub ops: Vec<ROp>,
+    /// scale scenario (zero run / unary part / copy of 2^32 bits over the sparse stubs)
+    #[serde(default)]
+    pub giant: Option<crate::giant::Giant>,
 }
 
 pub struct C02;
@@ -192,6 +195,18 @@ impl Family for C02 {
         let e = if index % 2 == 0 { En::BE } else { En::LE };
         let kind = RdKind::ALL[((index / 2) % 5) as usize];
         let pattern = PATTERNS[((index / 10) % 5) as usize];
+        if crate::giant::is_giant_index(index) {
+            let g = crate::giant::unary_only(crate::giant::gen_giant(rng));
+            return S02 {
+                e,
+                kind: g.rkind,
+                backend: RdBackend::MemStrict,
+                pattern,
+                image: Vec::new(),
+                ops: Vec::new(),
+                giant: Some(g),
+            };
+        }
         let wbytes = kind.word_bits() / 8;
         let nwords = match rng.below(4) {
             0 => rng.usize_range(1, 3),
@@ -232,15 +247,25 @@ impl Family for C02 {
             pattern,
             image,
             ops,
+            giant: None,
         }
     }
 
     fn exec(s: &S02, ctx: &mut Ctx) {
+        if let Some(g) = &s.giant {
+            return crate::giant::giant_read("C02", s.e, g, ctx);
+        }
         exec_rops("C02", 2, s.e, s.kind, &s.backend, &s.image, &s.ops, ctx);
     }
 
     fn shrink(s: &S02) -> Vec<S02> {
         let mut out = Vec::new();
+        if let Some(g) = &s.giant {
+            for g2 in crate::giant::shrink_giant(g) {
+                out.push(S02 { giant: Some(g2), ..s.clone() });
+            }
+            return out;
+        }
         for ops in shrink_list(&s.ops) {
             out.push(S02 { ops, ..s.clone() });
         }
